@@ -46,10 +46,11 @@ class CubicHermiteInterp(object):
            Point to evaluate interpolant at
         """
         t = self.__affine_transform(t_eval)
+        # (the end values are handed out as copies: the caller may modify what it gets)
         if t == 0.0:
-            return self.p0
+            return D.ar_numpy.copy(self.p0)
         elif t == 1.0:
-            return self.p1
+            return D.ar_numpy.copy(self.p1)
         t2 = t**2
         t3 = t2 * t
 
@@ -64,9 +65,9 @@ class CubicHermiteInterp(object):
         t = t_eval
         t_aff = (t - self.tshift)/self.trange
         if t_aff == 0.0:
-            return self.m0
+            return D.ar_numpy.copy(self.m0)
         elif t_aff == 1.0:
-            return self.m1
+            return D.ar_numpy.copy(self.m1)
         t2 = 2 * (t - self.tshift)/self.trange * (1/self.trange)
         t3 = 3 * (t - self.tshift)/self.trange * (t - self.tshift)/self.trange * (1/self.trange)
 
